@@ -8,6 +8,8 @@ import (
 	"math"
 	"math/rand/v2"
 	"os"
+	"runtime/debug"
+	"runtime/metrics"
 	"strconv"
 	"strings"
 	"syscall"
@@ -124,10 +126,16 @@ func vmHWM() int64 {
 	return 0
 }
 
+var c09MemSamples = [2]metrics.Sample{{Name: "/memory/classes/total:bytes"}, {Name: "/memory/classes/heap/released:bytes"}}
+
+var c09RSSDebug = os.Getenv("VERIF_C09_RSSDEBUG") != ""
+
 type c09 struct {
 	w        *mon.W
 	family   string
 	maxInput int
+	bulk     bool // bulk shard: many small inputs in one process
+	bigCalls int
 }
 
 // call runs one entry point on one input under the monitors.
@@ -164,9 +172,30 @@ func (c *c09) call(entry, inputClass string, input []byte, f func()) {
 	if len(input) > c.maxInput {
 		c.maxInput = len(input)
 	}
+	var hwm0 int64
+	if c.bulk && c09RSSDebug {
+		hwm0 = vmHWM()
+	}
 	pi := mon.Guard(f)
 	close(done)
 	used := cpuNow() - cpu0
+	if c.bulk && c09RSSDebug {
+		if d := vmHWM() - hwm0; d > 32<<20 {
+			w.Note(fmt.Sprintf("rss-jump/%s/%d", label, c.bigCalls), fmt.Sprintf("+%d MiB to %d MiB on a %d-byte input %x", d>>20, vmHWM()>>20, len(input), capBytes(input, 48)))
+		}
+	}
+	// calls that may legitimately allocate tens of MiB for a tiny input (a CAR section that
+	// announces 32 MiB): give the memory back before the next one, so that the process-wide
+	// high-water mark reflects what ONE call holds, not the garbage of many
+	// (the runtime's own accounting is read after every call - about a microsecond - and memory is
+	// handed back as soon as more than 160 MiB are mapped)
+	if c.bulk {
+		metrics.Read(c09MemSamples[:])
+		if c09MemSamples[0].Value.Uint64()-c09MemSamples[1].Value.Uint64() > 160<<20 {
+			c.bigCalls++
+			debug.FreeOSMemory()
+		}
+	}
 	w.Eval(1)
 	w.Cover("entry/" + entry)
 	if pi != nil {
@@ -395,8 +424,11 @@ func runC09(w *mon.W) {
 }
 
 func c09Bulk(w *mon.W, part, parts int) {
+	// a soft memory limit makes the runtime collect and return memory eagerly, so that the
+	// peak RSS of this process is (close to) the largest amount any single call kept alive
+	debug.SetMemoryLimit(256 << 20)
 	r := w.Rng
-	c := &c09{w: w}
+	c := &c09{w: w, bulk: true}
 	share := func(total int) int {
 		n := total / parts
 		if part < total%parts {
@@ -1088,13 +1120,10 @@ func c09Bombs(w *mon.W, part, parts int) {
 				_, _ = t.Policy().Match(ref.Map(ref.E("a", ref.Int(1))).Node())
 			}
 		}, 1000000, wideN},
-		{"ipld-deep-policy-node", "policy.FromIPLD", func(n int) []byte { return []byte(strconv.Itoa(n)) }, func(in []byte) {
-			n, _ := strconv.Atoi(string(in))
-			if n > 1000000 {
-				return
-			}
-			// decode a deep list with the dependency, then offer the node as a policy
-			nd, err := ipld.Decode(append(bytes.Repeat([]byte{0x81}, n), 0x01), dagcbor.Decode)
+		{"ipld-deep-policy-node", "policy.FromIPLD", func(n int) []byte { return append(bytes.Repeat([]byte{0x81}, n), 0x01) }, func(in []byte) {
+			// decode a deep list with the dependency, then offer the node as a policy (the input - and
+			// the memory bound - is the CBOR text the node comes from)
+			nd, err := ipld.Decode(in, dagcbor.Decode)
 			if err != nil {
 				return
 			}
